@@ -5,6 +5,7 @@ CONSTANTS
   CVals = {"", "1", "2"}
   DVals = {"", "1"}
   UVals = {"1"}
+  PrefixLen = 0
   MaxHosts = 2
   MaxSel = 2
   Defects = {}
